@@ -24,6 +24,7 @@ type WorkerSpec struct {
 	Out      string `json:"out"`
 	Trace    bool   `json:"trace"` // determinism self-test: record a trace hash per run
 	MaxViol  int    `json:"max_viol"`
+	ShrinkS  int    `json:"shrink_s"`         // per-violation minimisation budget
 	Replay   string `json:"replay,omitempty"` // run exactly this world file instead of generating
 }
 
@@ -147,7 +148,14 @@ func RunWorker(spec WorkerSpec) *WorkerResult {
 			res.TraceLogs[key] = st.TraceLog
 		}
 		if v != nil {
-			if classes[v.Class()] < 3 && len(res.Violations) < spec.MaxViol {
+			if classes[v.Class()] < 2 && len(res.Violations) < spec.MaxViol {
+				// minimise here, where a *testing.T exists for the bubble engine
+				curStart.Store(0)
+				if v.Kind != "hang" && spec.ShrinkS > 0 {
+					found := v.World.Seed
+					v = Shrink(p, v, time.Duration(spec.ShrinkS)*time.Second)
+					v.World.Seed = found
+				}
 				res.Violations = append(res.Violations, v)
 			}
 			classes[v.Class()]++
